@@ -905,6 +905,17 @@ def build(spec: dict) -> tuple[xr.Dataset, Truth]:
                 ds[name].encoding.update(encoding)
                 if was_coord:
                     ds = ds.set_coords(name)
+    if spec.get('big_endian'):
+        # the arrays of a classic-format netCDF file read through scipy: big-endian numbers
+        for name in list(ds.variables):
+            variable = ds[name]
+            if variable.dtype.kind in 'fiu' and variable.dtype.itemsize > 1:
+                was_coord = name in ds.coords
+                encoding = dict(variable.encoding)
+                ds[name] = (variable.dims, variable.values.astype(variable.dtype.newbyteorder('>')), variable.attrs)
+                ds[name].encoding.update(encoding)
+                if was_coord:
+                    ds = ds.set_coords(name)
     if spec.get('pack_coords'):
         # coordinates packed as scaled integers on disk, missing values as the integer fill value
         for name in truth.geometry_names:
@@ -1172,6 +1183,11 @@ def family_specs(tier: str, *, holes: bool = True, big: bool = True) -> list[dic
     specs.append({'family': 'cf2d', 'ny': 2, 'nx': 3, 'geometry': 'skew', 'lon0': 179.5, 'lat0': -70.0})
     specs.append({'family': 'shoc_standard', 'nj': 2, 'ni': 3, 'lon0': -180.5, 'lat0': 10.0})
     specs.append({'family': 'ugrid', 'mesh': 'M4', 'lon0': 179.0, 'lat0': -45.0})
+    # big-endian arrays (classic netCDF through scipy)
+    specs.append({'family': 'cf1d', 'ny': 2, 'nx': 3, 'bounds': 'var', 'big_endian': True})
+    specs.append({'family': 'cf2d', 'ny': 3, 'nx': 3, 'bounds': 'derived', 'holes': 'interior', 'big_endian': True})
+    specs.append({'family': 'shoc_standard', 'nj': 2, 'ni': 3, 'dry': 'corner', 'big_endian': True})
+    specs.append({'family': 'ugrid', 'mesh': 'M4', 'supplied': ['edge_node', 'face_face'], 'fill': 'fillattr', 'start_index': 1, 'big_endian': True})
     # a grid that goes round the globe in 0..360 style with its first cell across Greenwich; cells wider than half a turn
     specs.append({'family': 'cf1d', 'ny': 2, 'nx': 6, 'lon0': 5.0, 'dx': 60.0, 'lat0': -15.0, 'dy': 30.0})
     specs.append({'family': 'cf1d', 'ny': 2, 'nx': 6, 'lon0': -175.0, 'dx': 60.0, 'lat0': -15.0, 'dy': 30.0, 'bounds': 'var'})
